@@ -154,13 +154,29 @@ CLAIMS = [
         "level_note": "NOT decided: behavioural equivalence of an import with hand-inlining (quantifies over programs and runs); "
                       "Path::canonicalize is trusted. The traces alarm on any semantic edit of the audited functions.",
     },
+    {
+        "id": "C08",
+        "technique": "static analysis: scope-provenance rule for dependency-edge recording, statement-order and must-pass-through (MIR) rules for the block graph and Kosaraju's passes, audited flow-sensitive traces of the SCC / release / scheduling functions, arm table of the elaboration, hash-order taint on the dependency machinery, gate table of the recursive-group judgment",
+        "level_text": "Decides the structural content of 'ordered by dependency, not position': every binder and bindee of a contribution is "
+                      "resolved under a scope carrying that contribution's BindingSite and every reference to a sited name records "
+                      "user -> dependency for all enclosing sites of the block; the block graph has a node per candidate, is installed "
+                      "before and consumed after resolution; dfs_forward marks first and pushes on every path, dfs_backward labels first, "
+                      "the backward pass follows reverse finishing order, condensation and release keep their five maps in step (audited "
+                      "traces); groups and layers are sorted by source_order, recursive iff >1 member or self edge; Abs/Let/RecGroup/"
+                      "RecursiveParameter arm table of the elaboration over the reversed order; every hash-ordered iteration is "
+                      "neutralised or audited; recursive groups are accepted only as sealed annotated type definitions.",
+        "level_note": "NOT decided: that Kosaraju as audited yields exactly the SCCs for every graph, nor permutation invariance of behaviour "
+                      "(both follow by textbook argument from the decided structure; enumeration of graphs/programs is a different "
+                      "technique). Parameters in different dependency layers are ordered by layer, as documented ('source order only "
+                      "breaks ties'). The traces alarm on any semantic edit of the audited functions.",
+    },
 ]
 
 _PENDING = "check not built yet in this round (static rule designed in DESIGN.md, implementation pending)"
 NOT_APPLICABLE = [
     {"property_id": "C20", "reason": "behavioural equation through a 2800-line type-directed translation; no clause is both visible in the shape of elaborate/monadic/* and a necessary condition of the equation (DESIGN.md C20)"},
 ] + [{"property_id": p, "reason": _PENDING} for p in
-     ["C04", "C08", "C12", "C13", "C14", "C18", "C19"]]
+     ["C04", "C12", "C13", "C14", "C18", "C19"]]
 
 NOTES = ("Static analysis only: every verdict is computed from /repo's current working tree by the zyq rustc driver "
          "(facts) and repository-specific rules; nothing executes zydeco. Exit 2 (no VIOLATION line) means the tree could not "
